@@ -9,7 +9,7 @@ ERR_VARIANTS = {"Err", "None", "Break"}
 
 class Lit:
     """one decoded switch edge"""
-    __slots__ = ("kind", "term", "truth", "variants", "block", "raw", "value", "adt", "edge")
+    __slots__ = ("kind", "term", "truth", "variants", "block", "raw", "value", "adt", "edge", "implied")
 
     def __init__(self, kind, term, truth=None, variants=None, block=None, raw=None, value=None, adt=None):
         self.kind = kind          # 'call' | 'variant' | 'cmp' | 'flag' | 'other'
@@ -21,6 +21,7 @@ class Lit:
         self.value = value
         self.adt = adt
         self.edge = None
+        self.implied = False   # True: not a dominating edge, holds on every feasible path (pathcond)
 
     def __repr__(self):
         from .defuse import fmt
@@ -197,6 +198,23 @@ def lits_of(body, block, facts):
                             c_ = c_[3] if c_[0] == "var" else c_[1]
                         if c_[0] == "closure":
                             out.extend(_filter_lits(c_, pt, facts))
+    # path-sensitive facts: conditions computed into a bool flag first and tested later, edges common to every feasible path
+    try:
+        from .pathcond import implied_lits
+        extra, explained = implied_lits(body, block, facts)
+    except RecursionError:
+        extra, explained = [], set()
+    have = {(l.edge[0], l.edge[1]) for l in out if l.edge and l.kind != "flag"}
+    for l in extra:
+        if isinstance(l.value, tuple) and l.value and l.value[0] == "A":
+            out.append(l)
+            continue
+        if l.kind == "flag":
+            continue
+        if l.edge is not None and (l.edge[0], l.edge[1]) in have:
+            continue
+        out.append(l)
+    out = [l for l in out if not (l.kind == "flag" and l.block in explained)]
     body._cache[key] = out
     return out
 
